@@ -527,3 +527,34 @@ theorem navSubtypeFrom_some (sch : Schema) (s : State) (x : Inst) (rel : String)
       · exact ⟨e0, hm, hr, rest⟩
 
 end Pyx.Query
+
+/-! ### audit round 1: whole chains at state level -/
+namespace Pyx.Query
+open Pyx.Meta
+
+/-- every step of the chain can be navigated, without UnknownLinkException, from every element reached so far;
+    `fs` are the steps' partner functions -/
+def ChainOk (sch : Schema) (s : State) : List Step → List (Inst → List Inst) → List Inst → Prop
+  | [], [], _ => True
+  | st :: r, f :: fs, h =>
+    (∀ x ∈ h, navigate sch s x st.toKind st.rel st.phrase = some (f x)) ∧ ChainOk sch s r fs (h.flatMap f)
+  | _, _, _ => False
+
+theorem navSeq_foldl_none (sch : Schema) (s : State) : ∀ (steps : List Step),
+    steps.foldl (fun acc st => match acc with | some l => navStep sch s l st | none => none) none = none
+  | [] => rfl
+  | _ :: r => navSeq_foldl_none sch s r
+
+theorem navSeq_chainSeq (sch : Schema) (s : State) : ∀ (steps : List Step) (fs : List (Inst → List Inst)) (h : List Inst),
+    ChainOk sch s steps fs h → navSeq sch s h steps = some (chainSeq fs h)
+  | [], [], _, _ => rfl
+  | [], _ :: _, _, hc => by simp [ChainOk] at hc
+  | _ :: _, [], _, hc => by simp [ChainOk] at hc
+  | st :: r, f :: fs, h, hc => by
+    obtain ⟨h1, h2⟩ := hc
+    have ih := navSeq_chainSeq sch s r fs (h.flatMap f) h2
+    unfold navSeq at ih ⊢
+    simp only [List.foldl_cons, navStep_eq sch s st f h h1, chainSeq]
+    exact ih
+
+end Pyx.Query
